@@ -6,6 +6,8 @@ CONSTANTS
   ColumnMemo = "none"
   ParserScope = "per call"
   ScanMemo = "rows published while the first scan fills them"
+  OperandScope = "per call"
+  SubqueryColumns = "per table object"
   JobSet = "scan"
 INIT Init
 NEXT Next
